@@ -80,23 +80,22 @@ func Store(s store.Store, ranks []float64) StoreObs {
 // ExpectStore is the observation the mathematical map m must produce.
 func ExpectStore(m model.Map, ranks []float64) StoreObs {
 	o := StoreObs{ChanAscending: true}
-	o.Empty = len(m) == 0
-	o.Total = m.Total()
-	mn, mx, ok := m.MinMax()
-	if ok {
-		o.Min, o.Max = mn, mx
+	bins := m.Sorted()
+	o.Empty = len(bins) == 0
+	for _, b := range bins {
+		o.Total += b.Count
+	}
+	if len(bins) > 0 {
+		o.Min, o.Max = bins[0].Index, bins[len(bins)-1].Index
+		o.Bins = bins
 	} else {
 		o.MinErr, o.MaxErr = true, true
-	}
-	o.Bins = m.Sorted()
-	if len(o.Bins) == 0 {
-		o.Bins = nil
 	}
 	o.Chan = o.Bins
 	if !o.Empty {
 		o.Ranks = ranks
 		for _, r := range ranks {
-			k, _ := m.KeyAtRank(r)
+			k, _ := model.KeyAtRankSorted(bins, r)
 			o.Keys = append(o.Keys, k)
 		}
 	}
